@@ -53,6 +53,9 @@ func runSplit(keys []ech.Key, target echx.KeyPair, aead uint16, retry bool, spli
 	if p != nil {
 		return "", p
 	}
+	if sess.CallerKeysModified {
+		return "CALLER-SLICE-MODIFIED", nil
+	}
 	if err != nil {
 		return "newconn-error:" + echx.ErrClass(err), nil
 	}
@@ -80,7 +83,7 @@ func runSplit(keys []ech.Key, target echx.KeyPair, aead uint16, retry bool, spli
 }
 
 func Run(r *ev.Run) {
-	r.Rule("E1 exhaustive, differential: all ordered key lists of length 0..4 (with repetition) over the pool {T target (id 42), A other key same id same suites, B other key same id but suite list lacking the client's AEAD, C other id, D other id and other public name, E other key same id other public name, S same key as T in a second config with same id (different public name bytes are NOT used: same name)} x 3 AEADs x {first hello, retried hello after HelloRetryRequest} x hello encrypted to {T, a key U the server never holds}; outcome(list) must equal outcome([T]) when T is in the list and outcome([]) otherwise. distinct = distinct (list, aead, retry, target)")
+	r.Rule("E1 exhaustive, differential: all ordered key lists of length 0..4 (with repetition) over the pool {T target (id 42), A other key same id same suites, B other key same id but suite list lacking the client's AEAD, C other id, D other id and other public name, E other key same id other public name, S same key as T in a second config with same id (different public name bytes are NOT used: same name)} x 3 AEADs x {first hello, retried hello after HelloRetryRequest} x hello encrypted to {T, a key U the server never holds}; outcome(list) must equal outcome([T]) when T is in the list and outcome([]) otherwise; lists of 2-3 keys are also handed over as two WithKeys options at every split point, as sub-slices of one caller-owned array that must come back unmodified. distinct = distinct (list, aead, retry, target)")
 	r.Assume("reference sender validated against crypto/tls (C03)", "all keys in a list are valid X25519 keys with well-formed configs")
 	pool := "TABCDE"
 	var lists []string
@@ -190,7 +193,10 @@ func Run(r *ev.Run) {
 		// the same keys given through two WithKeys options (every split point) must behave like one list
 		if p == nil && o == want && len(keys) >= 2 && len(keys) <= 3 {
 			for split := 0; split <= len(keys); split++ {
-				if o2, p2 := runSplit(keys, ks[c.Target[0]], c.AEAD, c.Retry, split); p2 != nil || o2 != o {
+				o2, p2 := runSplit(keys, ks[c.Target[0]], c.AEAD, c.Retry, split)
+				if o2 == "CALLER-SLICE-MODIFIED" {
+					r.Violation("withkeys-writes-into-callers-slice", fmt.Sprintf("key list %q given as two sub-slices of one caller-owned array (WithKeys(pool[:%d]), WithKeys(pool[%d:])): after NewConn the caller's array has changed, so the NEXT connection configured from it holds other keys (acceptance then depends on an earlier connection's options)", c.List, split, split+1), c)
+				} else if p2 != nil || o2 != o {
 					r.Violation("outcome-depends-on-withkeys-split:"+kind, fmt.Sprintf("key list %q given as WithKeys(list[:%d]), WithKeys(list[%d:]) behaves differently from WithKeys(list)", c.List, split, split), c)
 				}
 			}
